@@ -19,6 +19,7 @@ RULE = ("Bounded-exhaustive: every ordered list of 1..3 specs (forms a-b, a-, -s
         "OWS/empty-element variants, plus non-grammar text (garbage, other units, huge digit strings). Non-trivial = >=2 "
         "specs of which two overlap/touch/nest, or a clipped last-byte / suffix form, or a rejected header; enumerated cases "
         "are distinct by construction, random ones are de-duplicated by (header,size).")
+RULE += ' Also: file sizes beyond 2**53 / 2**63 / 2**64 and numbers with leading zeros or 20+ digits.'
 ASSUMPTIONS = [
     "precedence between 400 and 416 when a header contains both a first>last spec and an unsatisfiable spec is not pinned: either accepted",
     "headers outside the RFC 7233 grammar only have to be rejected with 400/416 or resolved to a canonical in-bounds list (the pinned test-suite requires 'bytes=0-10,hello' to be accepted)",
